@@ -40,6 +40,9 @@ def _strategy():
                         "S": draw(st.lists(st.sampled_from(simbus.LATENCY_GRID[1:]), min_size=1, max_size=2))},
                 "use_proceed": True,
                 "sas": draw(st.sampled_from([[0xF9, 0xD4, 0xA7], [0xF9, 0xD4, 0xA7], [0x00, 0xD4, 0xA7], [0x01, 0x00, 0xFD], [0xFD, 0x80, 0x00], [0x7F, 0xFD, 0x01]])),
+                # (server-side write times are not generated: the server's DM14 code updates its state after several of its writes;
+                # two such defects were repaired - D40 (client), D41 (server, write data) - the rest is a documented limit, DESIGN.md 8)
+                "tx": draw(st.sampled_from([[0.0, 0.0], [0.0, 0.0], [0.0015, 0.0], [0.003, 0.0], [0.0005, 0.0]])),
                 "respond_delay": draw(st.sampled_from([0.0, 0.0, 0.001, 0.02])),
                 "txs": txs}
     return build()
